@@ -524,6 +524,50 @@ def run_set_meter(case):
             S.problem("set_meter(%r) refused but changed the bar" % (meter,), ((4, 4), 1.0), (b.meter, b.length))
 
 
+METER_SEQ = [(4, 4), (6, 8), (2, 2), (3, 16), (0, 0), (3, 4), (3, 5), (7, 1)]
+
+
+def run_meter_history(case):
+    """case = [initial meter index, [meter index, ...]]: meters set one after the other on an empty bar (refused ones leave
+    it alone), then '+': one entry of one beat of the meter in force (a quarter note in the free meter)."""
+    S = engine.S
+    first, seq = case
+    m0 = METER_SEQ[first]
+    if m0 in ((3, 5),):
+        return
+    b = Bar("C", m0)
+    cur = m0
+    for i in seq:
+        m = METER_SEQ[i]
+        try:
+            b.set_meter(m)
+            ok = True
+        except Exception:                                        # noqa -- which meters are refused is the set_meter clause's subject
+            ok = False
+        if ok:
+            cur = m
+    S.trans(len(seq) + 1)
+    site = "Bar('C', %r) after set_meter %r, then bar + 'C'" % (m0, [METER_SEQ[i] for i in seq])
+    if tuple(b.meter) != cur:
+        S.problem(site + ": meter in force", cur, b.meter)
+        return
+    r = b + "C"
+    want_value = 4 if cur == (0, 0) else cur[1]
+    if len(b.bar) != 1:
+        S.problem(site + ": entries", 1, len(b.bar))
+        return
+    e = b.bar[0]
+    if e[0] != 0.0 or e[1] != want_value or content_of(e[2]) != [("C", 4)]:
+        S.problem(site + ": the entry placed", [0.0, want_value, [("C", 4)]], [e[0], e[1], content_of(e[2])])
+    if abs(b.current_beat - 1.0 / want_value) > 1e-12:
+        S.problem(site + ": current_beat", 1.0 / want_value, b.current_beat)
+    want_len = 0.0 if cur == (0, 0) else cur[0] / float(cur[1])
+    if abs(b.length - want_len) > 1e-12:
+        S.problem(site + ": length", want_len, b.length)
+    S.count("meter_histories")
+    S.outcome((cur, want_value))
+
+
 _SPECS = {}
 
 
@@ -547,6 +591,7 @@ CLAUSES = {
     "fill": run_fill,
     "homogeneous": run_homogeneous,
     "set_meter": run_set_meter,
+    "meter_history": run_meter_history,
     "place_at_drift": run_place_at_drift,
     "setitem_shared": run_setitem_shared,
 }
@@ -593,6 +638,10 @@ def explore(ctx):
         ctx.bound("place_at_drift", {"programs over {q,t,-}": "length <= %d" % long_n, "over {q,t,f,s,-} in 4/4 and {q,t,f,-} in (0,0)": "length <= %d" % wide_n,
                                      "symbols": DRIFT_SYMBOLS})
         ctx.product("place_at_drift", shards, gen_place_at_drift)
+    if not only or "meter_history" in only:
+        nm = len(METER_SEQ)
+        ctx.bound("meter_history", {"meters": METER_SEQ, "sequences": "initial meter + up to 3 set_meter calls, then '+'"})
+        ctx.product("meter_history", list(range(nm)), lambda f: ([f, list(seq)] for k in range(0, 4) for seq in itertools.product(range(nm), repeat=k)))
     if not only or "setitem_shared" in only:
         ctx.serial("setitem_shared", [[c, i, k] for c in (2, 3, 4) for i in list(range(c)) + [-1] for k in ("str", "note", "list", "nc", "empty_list")])
     if not only:
